@@ -403,7 +403,7 @@ func TestC16BytesUDP(t *testing.T) {
 		core.HarnessError("udp bytes: executed %d of %d sequences", total.Execs, n)
 	}
 	if total.OK == 0 || total.Errs == 0 || total.Ignored == 0 || total.TrackerErrs == 0 {
-		core.HarnessError("vacuous udp bytes run: %+v", total)
+		rep.Vacuous("vacuous udp bytes run: %+v", total)
 	}
 	rep.Finish()
 }
